@@ -11,8 +11,9 @@ import time
 VERIF = os.path.dirname(os.path.dirname(os.path.abspath(__file__)))
 REPO = os.environ.get('VERIF_REPO', '/repo')
 SPEC = os.path.join(VERIF, 'spec')
-EVIDENCE = os.path.join(VERIF, 'evidence')
-FAILDIR = os.path.join(VERIF, 'out', 'failures')
+# (seeded-change evaluations write their evidence and failure files elsewhere: VERIF_EVIDENCE / VERIF_OUT)
+EVIDENCE = os.environ.get('VERIF_EVIDENCE') or os.path.join(VERIF, 'evidence')
+FAILDIR = os.path.join(os.environ.get('VERIF_OUT') or os.path.join(VERIF, 'out'), 'failures')
 PY = os.environ.get('VERIF_PYTHON', '/venv/bin/python')
 NCPU = int(os.environ.get('VERIF_CPUS', os.cpu_count() or 4))
 GUARD = 'PYXTUML_VERIF'
